@@ -413,6 +413,8 @@ func cmdReplay(args []string) {
 // --- site table ---------------------------------------------------------------
 
 var siteNames []string
+var siteReaderIO int // 0 (= harness yield) when no site table is loaded
+
 var siteSync []bool // site is a synchronising statement or the statement right after one
 
 func loadSites(path string) {
@@ -424,8 +426,13 @@ func loadSites(path string) {
 		return
 	}
 	lines := strings.Split(string(b), "\n")
-	siteNames = make([]string, len(lines)+2)
-	siteSync = make([]bool, len(lines)+2)
+	// the last id is the simulated record file: a yield inside DataReader.Read
+	// (I/O latency at the seam index.SlimIndex offers), an ordinary site for
+	// the strategies
+	siteNames = make([]string, len(lines)+3)
+	siteSync = make([]bool, len(lines)+3)
+	siteReaderIO = len(lines) + 2
+	siteNames[siteReaderIO] = "DataReader.Read(simulated-record-file)"
 	for _, l := range lines {
 		var id int
 		var loc, flag string
